@@ -78,6 +78,19 @@ def _perc_extremes(draw, hi):
             "np_seed": draw(st.integers(0, 2**32 - 1)), "py_seed": draw(st.integers(0, 2**32 - 1))}
 
 
+@st.composite
+def _elongated(draw, long_sizes):
+    """corridor-like grids: one side 1..3 cells, the other tens of cells (random walks and depth-first searches run long here)"""
+    n = draw(st.sampled_from(long_sizes))
+    k = draw(st.sampled_from([1, 1, 2, 3]))
+    r, c = (k, n) if draw(st.booleans()) else (n, k)
+    name = draw(st.sampled_from(["gen_wilson", "gen_wilson", "gen_dfs", "gen_percolation", "gen_dfs_percolation"]))
+    kw = {}
+    if name in ("gen_percolation", "gen_dfs_percolation"):
+        kw["p"] = draw(st.sampled_from([0.0, 1.0, 0.5]))
+    return {"gen": name, "r": r, "c": c, "kw": kw, "np_seed": draw(st.integers(0, 2**32 - 1)), "py_seed": draw(st.integers(0, 2**32 - 1))}
+
+
 def subs(tier: str):
     q = tier == "quick"
     hi = 12 if q else 30
@@ -85,5 +98,6 @@ def subs(tier: str):
         Sub("all-generators", check, "hypothesis", strategy=_strategy(hi), examples=400 if q else 4000),
         Sub("defaults-spanning-tree", check, "hypothesis",
             strategy=_strategy(hi if q else 20, defaults_only=True, names=["gen_dfs", "gen_wilson"]), examples=250 if q else 2000),
+        Sub("elongated-grids", check, "hypothesis", strategy=lambda: _elongated([64, 30, 100, 48] if q else [64, 30, 100, 48, 150, 200]), examples=6 if q else 60),
         Sub("percolation-extremes", check, "hypothesis", strategy=lambda: _perc_extremes(hi), examples=60 if q else 600),
     ]
